@@ -36,8 +36,12 @@ def typed(sym):
 
 def ctor_sub(chk, rng, w, wid, sym, plan=None):
     kind = rng.choice(["int", "F", "D", "SD", "fl", "s", "s", "bigint",
-                       "numstr", "longdec"])
-    if kind == "fl":
+                       "numstr", "longdec"] * 3 + ["bool"])
+    if kind == "bool":
+        b = rng.random() < 0.5
+        x = F(int(b))
+        e = ["b", b]
+    elif kind == "fl":
         f = rng.choice(FLOATS) if rng.random() < 0.6 else \
             float(rand_float_fraction(rng))
         x = F(f)
